@@ -24,7 +24,7 @@ import (
 func genC09Blocking(r *core.Rand, env *core.Env, run int) *Scenario {
 	sc := &Scenario{Kind: "C09:blocking"}
 	sc.Knobs = Knobs{ShardNum: pick(r, []int{1, 2, 8}), Databases: 1, YieldRMW: r.Bool(0.5), MaxSteps: 60000, IdleBudget: 300,
-		Strategy: pick(r, []int{0, 0, 1, 2}), PreemptPct: pick(r, []int{10, 30, 60})}
+		Strategy: pick(r, []int{0, 0, 1, 2, 3}), PreemptPct: pick(r, []int{10, 30, 60})}
 	queues := []string{"q0", "q1"}[:1+r.Intn(2)]
 	uniq := 0
 	for _, q := range queues {
